@@ -62,11 +62,10 @@ theorem simD_deliver {val : Val} {voters : List Id} {n : Nat} {s : Spec.State} {
     (hself : m.typ = .voteResp → m.from = n → m.reject = false)
     (h : (Raft.step (fuel + 1) m).run r = .ok (e, r')) : RaftSimD val voters n s r' := by
   rcases Nat.lt_trichotomy m.term r.term with hlt | heq | hgt
-  · have := sim_lower_term hinv h0 hlt hty h
-    subst this
-    exact RaftSimD.refl hinv
+  · exact RaftSimD.refl (hinv.lower_term h0 hlt hty h)
   · exact simD_same hinv hreach hty heq hto hin hself h
-  · obtain ⟨r1, hbf, h1⟩ := raise_term_run hinv hgt hty h
+  · rcases raise_term_run hinv hgt hty h with rfl | ⟨r1, hbf, h1⟩
+    · exact RaftSimD.refl hinv
     obtain ⟨s1, hrun, hmsgs, hdur, hinv1, ht1, _⟩ := sim_raise_term' hinv hgt hbf
     have hact : ∀ a ∈ [Spec.Action.updateTerm n m.term], a.actor = n := by simp [Spec.Action.actor]
     refine RaftSimD.trans hrun hact hdur (fun t lt li hx => by rw [hmsgs] at hx; exact hx) ?_
